@@ -55,7 +55,8 @@ typedef XalanVector<Counted> VecT;
 typedef XalanList<Counted> ListT;
 typedef XalanDeque<Counted> DeqT;
 
-static const size_t GUARD = 100000;   // no container in these histories gets anywhere near this
+static const size_t GUARD = 1000;   // no container in these histories gets anywhere near this; a traversal that
+                                     // runs into it (corrupted links, wild size) is reported as the single item -2
 
 // ------------------------------------------------------------------ output
 static std::string g_out;
@@ -94,6 +95,7 @@ static std::string mapObs(const MapT& m, int nkeys) {
     std::vector<std::pair<long long, long long>> items;
     size_t n = 0;
     for (MapT::const_iterator it = m.begin(); it != m.end() && n < GUARD; ++it, ++n) items.push_back({(*it).first, (*it).second.v});
+    if (n >= GUARD) items.assign(1, {-2, -2});
     std::sort(items.begin(), items.end());
     std::string o = "{\"size\":" + num((long long)m.size()) + ",\"empty\":" + (m.empty() ? "true" : "false") + ",\"items\":[";
     for (size_t i = 0; i < items.size(); ++i) { if (i) o += ","; o += "[" + num(items[i].first) + "," + num(items[i].second) + "]"; }
@@ -144,6 +146,7 @@ static std::string setObs(const SetT& s, int nkeys) {
     std::vector<long long> items;
     size_t n = 0;
     for (SetT::const_iterator it = s.begin(); it != s.end() && n < GUARD; ++it, ++n) items.push_back(*it);
+    if (n >= GUARD) items.assign(1, -2);
     std::sort(items.begin(), items.end());
     std::vector<long long> finds;
     for (int k = 0; k < nkeys; ++k) finds.push_back((long long)s.count(k));
@@ -223,11 +226,13 @@ static void runVector(const J& c) {
 static std::vector<long long> listItems(ListT& l) {
     std::vector<long long> r; size_t n = 0;
     for (ListT::iterator it = l.begin(); it != l.end() && n < GUARD; ++it, ++n) r.push_back((*it).v);
+    if (n >= GUARD) r.assign(1, -2);
     return r;
 }
 static std::vector<long long> listRItems(ListT& l) {
     std::vector<long long> r; size_t n = 0;
     for (ListT::reverse_iterator it = l.rbegin(); it != l.rend() && n < GUARD; ++it, ++n) r.push_back((*it).v);
+    if (n >= GUARD) r.assign(1, -2);
     return r;
 }
 static ListT::iterator listAt(ListT& l, size_t pos) { ListT::iterator it = l.begin(); while (pos-- > 0) ++it; return it; }
@@ -268,9 +273,9 @@ static void runList(const J& c) {
 
 // ------------------------------------------------------------------ deque
 static void fill(DeqT& t, const std::vector<long long>& src) { for (long long x : src) t.push_back(Counted(int(x))); }
-static std::vector<long long> deqIndex(DeqT& d) { std::vector<long long> r; const size_t n = d.size(); for (size_t i = 0; i < n && i < GUARD; ++i) r.push_back(d[i].v); return r; }
-static std::vector<long long> deqIter(DeqT& d) { std::vector<long long> r; size_t n = 0; for (DeqT::iterator it = d.begin(); it != d.end() && n < GUARD; ++it, ++n) r.push_back((*it).v); return r; }
-static std::vector<long long> deqRIter(const DeqT& d) { std::vector<long long> r; size_t n = 0; for (DeqT::const_reverse_iterator it = d.rbegin(); it != d.rend() && n < GUARD; ++it, ++n) r.push_back((*it).v); return r; }
+static std::vector<long long> deqIndex(DeqT& d) { std::vector<long long> r; const size_t n = d.size(); if (n >= GUARD) return {-2}; for (size_t i = 0; i < n; ++i) r.push_back(d[i].v); return r; }
+static std::vector<long long> deqIter(DeqT& d) { std::vector<long long> r; size_t n = 0; for (DeqT::iterator it = d.begin(); it != d.end() && n < GUARD; ++it, ++n) r.push_back((*it).v); if (n >= GUARD) r.assign(1, -2); return r; }
+static std::vector<long long> deqRIter(const DeqT& d) { std::vector<long long> r; size_t n = 0; for (DeqT::const_reverse_iterator it = d.rbegin(); it != d.rend() && n < GUARD; ++it, ++n) r.push_back((*it).v); if (n >= GUARD) r.assign(1, -2); return r; }
 static std::string deqObs(DeqT& d) {
     const bool e = d.empty();
     return "\"obs\":{\"items\":" + seqJson(deqIndex(d)) + ",\"iter\":" + seqJson(deqIter(d)) + ",\"ritems\":" + seqJson(deqRIter(d)) + ",\"size\":" + num((long long)d.size()) +
@@ -396,9 +401,9 @@ static int runChild(const std::vector<std::string>& lines, size_t from, size_t t
     const pid_t pid = fork();
     if (pid < 0) { perror("fork"); exit(2); }
     if (pid == 0) {
-        alarm(unbuffered ? 20 : 300);
         g_unbuffered = unbuffered;
         for (size_t k = from; k < to; ++k) {
+            alarm(15);                 // per history: an endless traversal of a corrupted structure is a violation, not a hang
             runCase(parseJson(lines[k]), k + 1);
             if (!g_unbuffered) {       // a case's events are written only when the case is complete
                 size_t off = 0;
